@@ -37,13 +37,37 @@ RULE = (
     "alias and bound, dataclass/TypedDict/NamedTuple field, quoted); a parameter of every annotation used in ~95 ways "
     "(conditions, calls, subscripts, operators, unpacking, iteration, with, match, f-strings, await/yield); every "
     "ill-typed expression in every expression position; every ill-typed statement inside every compound statement; "
-    "odd signatures; PEP 695 type-parameter lists. Random part: weighted random derivations (random part <= ~60 "
+    "odd signatures; PEP 695 type-parameter lists; star-sequence subscripts: every list/tuple display and every variadic "
+    "tuple annotation whose members follow one of the 25 patterns over {element, star} of length 0-4 with <= 2 stars (star "
+    "sources of unknown length list[int]/tuple[str, ...]/unannotated/undefined, of known length tuple[int, str]/literal/"
+    "range, variadic tuple, empty; *tuple[X, ...]/*Ts/Unpack[...]/fixed unpack in annotations) subscripted with every "
+    "constant from -(n+3) to n+2 (n = members written), 19 slices around the boundaries, 16 non-literal / ill-typed indices, "
+    "and used in ~45 further ways (slice-then-index, unpacking targets with and without star, iteration, len, + and *, "
+    "comparison, *args, nested displays, list()/tuple()/sorted(), match sequence patterns, item assignment/deletion/"
+    "augmented assignment for lists); awkward values: 73 module-level objects of every awkward runtime kind (closure from a "
+    "factory, function-local class / its instance / its bound method, lambda, generator / coroutine / async generator "
+    "objects, locks, open file, module object, bound methods, partials, weak references / proxy / WeakValueDictionary, "
+    "objects whose __getattr__/__getattribute__/__reduce__/__reduce_ex__/__getstate__/__dir__/__bool__/__len__/__iter__/"
+    "__index__/__hash__/__eq__/__repr__/__format__/__call__/__getitem__/__enter__/__setattr__/__contains__/__add__/__lt__/"
+    "__instancecheck__ raise an exception the protocol does not expect, lying and raising __class__, hostile metaclass "
+    "__getattr__, negative / huge __len__, endless __iter__, answer-everything __getattr__, exception that cannot be "
+    "re-created, NaN, self-containing list/dict, memoryview, array, code, frame, descriptors, mappingproxy, thread-local) "
+    "each in every USES position and in ~220 further value positions: stored to attributes of receivers of known class "
+    "(self.x = V in __init__/methods, annotated, in containers, chained, tuple/star/with/for/walrus targets, cls.x = V, "
+    "parameter of annotated class, constructor call result, Union receiver, type[C], module-level instance, setattr), class "
+    "attributes, dataclass/enum/NamedTuple fields, parameter defaults, decorators, bases, metaclass and class keywords, "
+    "annotations (bare, nested, quoted, Literal, Annotated metadata, Callable), cast/assert_type/isinstance/issubclass "
+    "arguments, displays, dict keys, set members, boolean/comparison/arithmetic/format operands, builtins' arguments, "
+    "subscripts and slices, unpacking, iteration, with, del, raise/except/from, match subject and class pattern, global "
+    "store, await/async for/async with/yield/yield from - checked with the attribute checker active, its final-pass "
+    "diagnostics included, and (value positions only) through `python -m pyanalyze`. Random part: weighted random derivations (random part <= ~60 "
     "statement/expression productions) over decorators, classes with bases/metaclass keywords/properties/__slots__, "
     "dataclasses, enums, NamedTuple/TypedDict/Protocol, nested defs, lambdas, the 4 comprehension kinds with nested "
     "if/walrus/async for, star-expressions in calls/displays/targets/subscripts, f-strings with nested specs and '=', "
     "match with every pattern kind, async def/await/async for/async with, generators/yield from, global/nonlocal, del, "
     "chained comparisons, slices with steps, augmented assignment to attributes/subscripts, try/except*, multi-item "
-    "with, PEP 695, odd layouts (form feed, no trailing newline, non-ASCII, continuation lines), ill-typed code; plus "
+    "with, PEP 695, odd layouts (form feed, no trailing newline, non-ASCII, continuation lines), ill-typed code, and in a "
+    "fifth of the derivations the awkward module-level values as names; plus "
     "the shared ill-typed / annotated-program generators (10 % each). Non-trivial = the generated part has >= 8 "
     "distinct AST node types and the check produced >= 1 diagnostic or the part has >= 40 nodes; distinct by "
     "AST-node-type multiset of the generated part. CLI: ~20 generated files per shard through `python -m pyanalyze`, "
@@ -59,6 +83,10 @@ ASSUMPTIONS = [
     "lines are CPython's physical lines (split at \\n, \\r\\n, \\r); the column is accepted up to the UTF-8 byte length of the line (ast col_offset is a byte offset)",
     "beyond the statement's four clauses one rendering clause is checked: the context printed with a diagnostic contains the reported line and the caret sits under the column",
     "internal_error diagnostics are attributed to the innermost frame inside the pyanalyze package found in the traceback text pyanalyze itself embeds in the message",
+    "exception: when the innermost frame of all is the checked module's own __getattribute__ / __getattr__ / __class__ hook (invoked implicitly by an isinstance / getattr / hasattr "
+    "probe of a literal object, of which pyanalyze has hundreds), the mechanism is 'unguarded probe of a literal with such a hook' and the key names the hook, not the probing place",
+    "a check is also interrupted after 90 CPU-seconds of the worker process (ITIMER_VIRTUAL; the largest generated module needs < 5), besides the 300 s alarm; a program that "
+    "exceeds a limit is reported as it is (re-checks for shrinking / confirmation would each use up the limit again)",
     "hash() raising TypeError is excused only for values that wrap an unhashable Python object (by construction of the spec)",
     "Checker() with default options is the CanAssignContext of the value-API half",
     "the shared Checker is reused across programs of a worker (as the CLI does across files); every reported witness is re-confirmed with a fresh Checker",
@@ -68,10 +96,14 @@ ASSUMPTIONS = [
 FLOORS = {
     "quick": {"distinct_nontrivial": 4500, "programs_checked": 3400, "program_checks": 10000, "diagnostics_checked": 450000,
               "contract_evaluations": 1000000, "value_api_calls": 800000, "cli_runs": 160, "annotation_conversions": 15000,
-              "regression_programs": 20, "sweep_programs": 420, "termination_probes": 10, "cli_regression_programs": 2},
+              "regression_programs": 30, "sweep_programs": 480, "termination_probes": 10, "cli_regression_programs": 3,
+              "star_sequence_subscripts_programs": 26, "awkward_values_programs": 18, "probe_hook_values_programs": 2, "cli_awkward_programs": 2,
+              "attribute_checker_final_pass_diagnostics": 1600},
     "thorough": {"distinct_nontrivial": 15000, "programs_checked": 20000, "program_checks": 60000, "diagnostics_checked": 2500000,
                  "contract_evaluations": 5000000, "value_api_calls": 3000000, "cli_runs": 320, "annotation_conversions": 60000,
-                 "regression_programs": 20, "sweep_programs": 420, "termination_probes": 10, "cli_regression_programs": 2},
+                 "regression_programs": 30, "sweep_programs": 480, "termination_probes": 10, "cli_regression_programs": 3,
+                 "star_sequence_subscripts_programs": 26, "awkward_values_programs": 18, "probe_hook_values_programs": 2, "cli_awkward_programs": 2,
+                 "attribute_checker_final_pass_diagnostics": 1600},
 }
 NSHARDS = 16
 WATCHDOG_S = {"quick": 1500, "thorough": 7200}
@@ -237,6 +269,26 @@ def _frame_key(frames, exc_name: str = ""):
     return "?:?", "?"
 
 
+# file names import_module() gives the checked module
+_CHECKED_MODULE_RE = re.compile(r"^(?:[0-9a-f]{64}\.py|<test input [0-9a-f]+>)$")
+# hooks that generic probes (isinstance / issubclass -> __class__, getattr / hasattr -> __getattr__, everything ->
+# __getattribute__) invoke implicitly
+_PROBE_HOOKS = {"__getattribute__", "__getattr__", "__class__"}
+
+
+def probe_hook(frames):
+    """-> name of the hook, if the innermost frame of the traceback is code of the *checked module itself* running as one
+    of the implicitly invoked hooks of a literal object (the checker probed an object of the module with isinstance /
+    getattr / hasattr and the object's own hook raised).  pyanalyze probes literal objects in hundreds of places: the
+    mechanism is the unguarded probe of a literal with such a hook, not the place that happened to probe first."""
+    if frames:
+        file, _lineno, func = frames[-1]
+        func = func.strip().split(".")[-1]
+        if _CHECKED_MODULE_RE.match(os.path.basename(file)) and func in _PROBE_HOOKS:
+            return func
+    return None
+
+
 _VISIT_RE = re.compile(r"^visit_([A-Za-z]+)$")
 _COMPOSITE = {"subscript": "Subscript", "attribute": "Attribute", "name": "Name", "walrus": "NamedExpr"}
 _COMPOSITE_RE = re.compile(r"composite_from_(subscript|attribute|name|walrus)")
@@ -296,6 +348,9 @@ def internal_error_key(failure, node_type: str):
     exc = m.group(1).split(".")[-1]
     frames = frames_of_text(desc)
     where, fileline = _frame_key(frames, exc)
+    hook = probe_hook(frames)
+    if hook is not None:
+        return f"internal_error|{exc}|unguarded-probe-of-literal:{hook}|-", fileline
     node = "-" if exc == "RecursionError" else visited_node(frames, desc[m.start():], node_type)
     return f"internal_error|{exc}|{where}{validator_rule(exc, desc[m.start():])}|{node}", fileline
 
@@ -321,6 +376,9 @@ def validator_rule(exc: str, message: str) -> str:
 def escaped_key(exc: BaseException):
     frames = frames_of_exc(exc)
     where, fileline = _frame_key(frames, type(exc).__name__)
+    hook = probe_hook(frames)
+    if hook is not None:
+        return f"escaped|{type(exc).__name__}|unguarded-probe-of-literal:{hook}|-", fileline
     node = "-" if isinstance(exc, RecursionError) else visited_node(frames, str(exc), "?")
     return f"escaped|{type(exc).__name__}|{where}{validator_rule(type(exc).__name__, str(exc))}|{node}", fileline
 
@@ -381,10 +439,45 @@ class CheckTimeout(BaseException):
 
 
 CHECK_LIMIT_S = 300  # a check of a <=100-line module normally takes 0.01-0.5 s
+CHECK_CPU_LIMIT_S = 90  # CPU seconds of this process (ITIMER_VIRTUAL): independent of the load of the machine; the largest sweep module needs < 5
 
 
 def _on_alarm(signum, frame):
     raise CheckTimeout()
+
+
+MEMORY_LIMIT_BYTES = 3 << 30     # RLIMIT_AS of the worker (a worker normally has 0.2-0.6 GiB mapped)
+PEAK_GROWTH_LIMIT_KB = 1 << 20   # one check may raise the peak resident set of the worker by at most 1 GiB
+
+
+def limit_memory():
+    """pyanalyze evaluates some functions on literal arguments and swallows every Exception they raise, MemoryError
+    included: an evaluation that allocates without end would take the machine down and, once it is stopped by a limit,
+    leave no trace in the diagnostics.  The address space of the worker is therefore limited and the growth of its peak
+    resident set is measured around every check."""
+    import resource
+
+    soft, hard = resource.getrlimit(resource.RLIMIT_AS)
+    if soft == resource.RLIM_INFINITY or soft > MEMORY_LIMIT_BYTES:
+        resource.setrlimit(resource.RLIMIT_AS, (MEMORY_LIMIT_BYTES, hard))
+    return soft, hard
+
+
+def unlimit_memory(previous) -> None:
+    """the limit only holds while a check runs: after an evaluation has used it up, the worker's own allocations must
+    not fail (the allocator does not give everything back at once)"""
+    import resource
+
+    try:
+        resource.setrlimit(resource.RLIMIT_AS, previous)
+    except (ValueError, OSError):
+        pass
+
+
+def _peak_rss_kb() -> int:
+    import resource
+
+    return resource.getrusage(resource.RUSAGE_SELF).ru_maxrss
 
 
 def observe(source: str, config: str, fresh: bool = False):
@@ -392,9 +485,13 @@ def observe(source: str, config: str, fresh: bool = False):
     import signal
 
     CONTRACT.reset()
+    previous_limit = limit_memory()
+    peak0 = _peak_rss_kb()
     kw = dict(CONFIGS[config])
     old = signal.signal(signal.SIGALRM, _on_alarm)
+    old_vt = signal.signal(signal.SIGVTALRM, _on_alarm)
     signal.alarm(CHECK_LIMIT_S)
+    signal.setitimer(signal.ITIMER_VIRTUAL, CHECK_CPU_LIMIT_S)
     module = None
     try:
         module = import_module(source)
@@ -405,17 +502,29 @@ def observe(source: str, config: str, fresh: bool = False):
         return "unimportable", [], {"why": type(e).__name__}
     finally:
         signal.alarm(0)
+        signal.setitimer(signal.ITIMER_VIRTUAL, 0)
         signal.signal(signal.SIGALRM, old)
+        signal.signal(signal.SIGVTALRM, old_vt)
+        unlimit_memory(previous_limit)
         harness.forget_module(module)
     found = []
     lines = py_lines(source)
     if isinstance(res.exception, CheckTimeout):
         where, fileline = _frame_key(frames_of_exc(res.exception))
-        found.append(("hang|check-exceeded-limit", f"[{config}] the check did not finish within {CHECK_LIMIT_S} s (interrupted in {where}, {fileline})", None))
+        found.append(("hang|check-exceeded-limit", f"[{config}] the check did not finish within {CHECK_CPU_LIMIT_S} CPU-seconds / {CHECK_LIMIT_S} s (interrupted in {where}, {fileline})", None))
     elif res.exception is not None:
         key, fileline = escaped_key(res.exception)
         found.append((key, f"[{config}] exception escaped check(): {res.exception!r} at {fileline}", None))
-    raw = getattr(res, "raw", [])
+    grown = _peak_rss_kb() - peak0
+    if grown > PEAK_GROWTH_LIMIT_KB:
+        found.append(("memory|check-grew-peak-rss-beyond-limit", f"[{config}] the check raised the peak resident set of the process by {grown >> 10} MiB "
+                      f"(limit {PEAK_GROWTH_LIMIT_KB >> 10} MiB; address space limited to {MEMORY_LIMIT_BYTES >> 20} MiB)", None))
+    raw = list(getattr(res, "raw", []))
+    # diagnostics of the attribute checker's final pass (ClassAttributeChecker.__exit__ -> check_attribute_reads) are shown
+    # through the visitor after check() has returned its list: they are in visitor.all_failures only
+    returned = {id(r) for r in raw}
+    final_pass = [f for f in (getattr(res.visitor, "all_failures", None) or []) if id(f) not in returned] if res.exception is None else []
+    raw += final_pass
     codes = collections.Counter()
     for f in raw:
         code = f.get("code")
@@ -437,7 +546,7 @@ def observe(source: str, config: str, fresh: bool = False):
     for name in CONTRACT.raised:
         k = f"show_error-raised|{name}"
         found.append((k, f"[{config}] show_error itself raised {name}", None))
-    stats = {"diags": len(raw), "codes": codes, "contract": CONTRACT.evaluations}
+    stats = {"diags": len(raw), "codes": codes, "contract": CONTRACT.evaluations, "final_pass": len(final_pass)}
     # one (key, what) per key
     seen, out = set(), []
     for k, w, ln in found:
@@ -622,11 +731,38 @@ REGRESSION = [
     "def f0(x):\n    g = x\n    g.x %= (yield)\n    y = (yield 1)\n",
     # Callable with a ParamSpec inside the parameter list
     "from typing import Callable, ParamSpec\nP = ParamSpec('P')\ndef f(x: Callable[[P, int], int]): pass\n",
+    # module-level objects of awkward runtime kinds (found by the awkward-value sweeps) ---------------------------------
+    # an object that answers every attribute access and every subscript: __attrs_attrs__ is iterated without end ...
+    "class Dyn:\n    def __getattr__(self, name): return self\n    def __getitem__(self, k): return self\nX = Dyn()\ndef f():\n    return X.meth\n",
+    # ... and sorted() (a function evaluated on literal arguments) builds a list without end
+    "class Dyn:\n    def __getitem__(self, k): return self\nX = Dyn()\ndef f():\n    return sorted(X)\n",
+    # repr() of a literal in a message
+    "class R:\n    def __repr__(self): raise ValueError('r')\nX = R()\ndef f(x):\n    return isinstance(x, (X, int)), issubclass(x, (X,))\n",
+    "class R:\n    def __repr__(self): raise ValueError('r')\nX = R()\ndef f():\n    try:\n        pass\n    except X:\n        pass\n",
+    # a list that contains itself as inferred return value
+    "X = []\nX.append(X)\ndef f():\n    return X\n",
+    # an object whose __class__ claims to be int as operand
+    "class L:\n    @property\n    def __class__(self): return int\nX = L()\ndef f():\n    return X * X, X << X, X ** 2\n",
+    # implicitly invoked hooks that raise: __getattribute__, __class__, __getattr__ of the metaclass / of the object
+    "class G:\n    def __getattribute__(self, name): raise ValueError(name)\nX = G()\ndef f():\n    return X + 1\n",
+    "class K:\n    @property\n    def __class__(self): raise ValueError('c')\nX = K()\ndef f():\n    return X + 1\n",
+    "class M(type):\n    def __getattr__(cls, name): raise ValueError(name)\nclass C(metaclass=M): pass\ndef f():\n    return C()\n",
+    "class A:\n    def __getattr__(self, name): raise ValueError(name)\nX = A()\ndef f(x: X):\n    @X\n    def g(): pass\n    return g\n",
+    # values pickle rejects with AttributeError / ValueError / RuntimeError stored to an attribute of a receiver of known class
+    "def mk():\n    def inner(): pass\n    class Local: pass\n    return inner, Local, Local()\nA, B, C = mk()\nclass H:\n    def __init__(self):\n        self.a = A\n        self.b = B\n        self.c = [C]\n",
+    "class S:\n    def __getstate__(self): raise RuntimeError('s')\nclass Rd:\n    def __reduce__(self): raise ValueError('r')\nX = S(); Y = Rd()\nclass H:\n    def m(self, o: 'H'):\n        self.x = X\n        o.y = (Y, 1)\n",
+    # a super object called like a function
+    "class C:\n    def meth(self):\n        return super()(1)\n",
+    # negative constant index beyond the members written in a display with a star member
+    "def f(xs: list[int], ts: tuple[str, ...]):\n    return (1, *xs)[-3], [*xs, 'a'][-4], (*ts, 1, *xs)[-5], (1, *xs)[-3:], (1, *xs)[5]\n",
+    "def f(v: tuple[int, *tuple[str, ...], bytes], w: tuple[*tuple[int, ...], str]):\n    return v[-4], v[-1], v[3], w[-3], w[-1], w[2]\n",
 ]
 # checked through `python -m pyanalyze` by every run (the ClassAttributeChecker of the CLI runs outside any catch-all)
 CLI_REGRESSION = [
     "class C:\n    def f(self):\n        return super().__nope\n",
     "from __future__ import annotations\nv: int or str = 1\n",
+    # the attribute checker's bookkeeping (pickle probe of stored values, final pass over the reads) outside any catch-all
+    "def mk():\n    def inner(): pass\n    class Local: pass\n    return inner, Local, Local()\nA, B, C = mk()\nclass H:\n    def __init__(self):\n        self.a = A\n        self.b = B\n        self.c = [C]\n    def r(self):\n        return self.a, self.nope\n",
 ]
 
 
@@ -666,11 +802,14 @@ def check_program(ctx, source: str, feats, origin: str, minimise: bool = True, s
             return
         ctx.count("program_checks")
         ctx.count("diagnostics_checked", stats["diags"])
+        ctx.count("attribute_checker_final_pass_diagnostics", stats["final_pass"])
         total_diags += stats["diags"]
         for c, n in stats["codes"].items():
             ctx.histo("diagnostic_codes", c, n)
         for k, w, ln in found:
             all_found.setdefault(k, (config, w, ln))
+        if any(k.startswith(("hang|", "memory|")) for k, _w, _ln in found):
+            break  # the other configurations would only use up their limits too
     ctx.count("programs_checked")
     ctx.histo("origin", origin)
     for f in feats:
@@ -704,6 +843,10 @@ def report(ctx, source, config, key, what, target_line=None, minimise=True, shru
         # the fourth and later occurrences of a mechanism in this shard are only counted (a witness is kept already)
         ctx.violation_counts[key] = ctx.violation_counts.get(key, 0) + 1
         return
+    if key.startswith(("hang|", "memory|")):
+        # every re-check of a program that does not terminate / allocates without end uses up the whole limit: no shrinking, no re-confirmation
+        ctx.violation(key, what + "\n--- program ---\n" + source, {"kind": "program", "source": source, "config": config, "expect": key})
+        return
     if minimise and shrunk_keys.get(key, 0) < 1:
         shrunk_keys[key] = shrunk_keys.get(key, 0) + 1
         small, used = shrink(source, config, key, target_line)
@@ -733,7 +876,11 @@ def program_phase(ctx) -> None:
             check_program(ctx, src, [], "regression", minimise=False)
     for name, src in fuzzgen.sweep_programs(ctx.mine):
         ctx.count("sweep_programs")
-        check_program(ctx, src, [], "sweep:" + name, shrunk_keys=shrunk)
+        if name in ("star-sequence-subscripts", "awkward-values", "probe-hook-values"):
+            ctx.count(name.replace("-", "_") + "_programs")
+        # the probe-hook objects make the checker fail in every statement that touches them: the witnesses of those
+        # mechanisms are the minimal programs of the regression corpus, not shrunk copies of the sweep module
+        check_program(ctx, src, [], "sweep:" + name, minimise=name != "probe-hook-values", shrunk_keys=shrunk)
     n = ctx.pick(400, 2500)
     n_fuzz = int(n * 0.8)
     for i in range(n):
@@ -767,11 +914,25 @@ _TB_RE = re.compile(r"Traceback \(most recent call last\):")
 _ANSI_RE = re.compile(r"\x1b\[[0-9;]*m")
 
 
-def cli_check(path_or_paths, cwd: str):
+def cli_check(path_or_paths, cwd: str, timeout: float = 900.0):
     """-> (key, what) or None"""
+    return _cli_check(path_or_paths, cwd, timeout)
+
+
+def _cli_probe_hook(frames, cwd: str):
+    """probe_hook() for a traceback of the CLI: the checked files are the ones under cwd"""
+    if frames:
+        file, _lineno, func = frames[-1]
+        func = func.strip().split(".")[-1]
+        if os.path.dirname(os.path.abspath(file)) == os.path.abspath(cwd) and func in _PROBE_HOOKS:
+            return func
+    return None
+
+
+def _cli_check(path_or_paths, cwd: str, timeout: float):
     paths = [path_or_paths] if isinstance(path_or_paths, str) else list(path_or_paths)
     try:
-        p = harness.run_cli(paths, cwd=cwd, timeout=900.0)
+        p = harness.run_cli(paths, cwd=cwd, timeout=timeout)
     except Exception as e:  # noqa: BLE001
         return f"cli|{type(e).__name__}", f"python -m pyanalyze did not finish: {e!r}"
     err = _ANSI_RE.sub("", p.stderr or "")
@@ -784,6 +945,9 @@ def cli_check(path_or_paths, cwd: str):
         where, fileline = _frame_key(frames)
         m = re.findall(r"^([A-Za-z_][A-Za-z0-9_.]*(?:Error|Exception|Interrupt|Exit)?)(?::|$)", tail, re.M)
         exc = m[-1].split(".")[-1] if m else "?"
+        hook = _cli_probe_hook(frames, cwd)
+        if hook is not None:
+            where = f"unguarded-probe-of-literal:{hook}"
         return (f"cli|{'exit=' + str(p.returncode) if crashed else 'died-with-traceback'}|{exc}|{where}",
                 f"python -m pyanalyze exit status {p.returncode}; stderr ends: {err[-700:]!r} ({fileline})")
     return None
@@ -871,6 +1035,20 @@ def cli_phase(ctx) -> None:
             r1 = cli_check(path, d)
             if r1 is not None:
                 ctx.violation(r1[0], r1[1] + "\n--- program ---\n" + src, {"kind": "cli", "source": src, "expect": r1[0]})
+    # whole-file runs of the awkward-value attribute programs: the CLI's ClassAttributeChecker (recording of attribute
+    # stores, final pass over the attribute reads) runs outside any catch-all
+    base = len(TERMINATION_PROBES) + len(CLI_REGRESSION)
+    for i, (name, src) in enumerate(fuzzgen.awkward_cli_programs()):
+        if ctx.mine(i + base):
+            path = os.path.join(d, f"awkward{i}.py")
+            with open(path, "w", encoding="utf-8", newline="") as f:
+                f.write(src)
+            ctx.count("cli_invocations")
+            ctx.count("cli_awkward_programs")
+            ctx.count("evaluations")
+            r1 = cli_check(path, d, timeout=300.0)
+            if r1 is not None:
+                ctx.violation(r1[0], r1[1] + f"\n--- program: fuzzgen.awkward_cli_programs()[{i}] ({name}) ---", {"kind": "cli-awkward", "index": i, "expect": r1[0]})
     n = ctx.pick(20, 40)
     batch = ctx.pick(5, 5)
     files = []
@@ -1172,6 +1350,16 @@ def replay(witness):
             with open(path, "w", encoding="utf-8", newline="") as f:
                 f.write(witness["source"])
             r = cli_check(path, d)
+            if r:
+                ctx.violation(r[0], r[1], witness)
+    elif kind == "cli-awkward":
+        import tempfile
+
+        with tempfile.TemporaryDirectory(dir=os.environ.get("VERIF_SCRATCH")) as d:
+            path = os.path.join(d, "awkward.py")
+            with open(path, "w", encoding="utf-8", newline="") as f:
+                f.write(fuzzgen.awkward_cli_programs()[witness["index"]][1])
+            r = cli_check(path, d, timeout=300.0)
             if r:
                 ctx.violation(r[0], r[1], witness)
     elif kind == "probe":
